@@ -521,6 +521,10 @@ func iosC14Lines() []string {
 
 var c14Lines4 = []string{c14Lines[4], c14Lines[6], c14Lines[1], c14Lines[0], c14Lines[5]}
 
+// with a remark: remarks belong to no action, but take part in the line
+// numbering and in the tool's block structure
+var c14LinesRemark = []string{"remark r1", c14Lines[4], c14Lines[6], c14Lines[1], c14Lines[0]}
+
 func iosSpell(l string) string {
 	// ASA net mask -> IOS wildcard, any4 -> any
 	l = strings.ReplaceAll(l, "255.255.255.0", "0.0.0.255")
@@ -555,7 +559,17 @@ func iosACLText(name string, seq []int, lines []string) string {
 }
 
 func aclPairSpace(model, name string, lines []string, nLines, maxLen int, allowEmptyA bool) *space {
-	sq := seqs(nLines, 1, maxLen)
+	var sq [][]int
+	for _, q := range seqs(nLines, 1, maxLen) {
+		// an ACL of remarks only is an empty ACL
+		only := true
+		for _, i := range q {
+			only = only && strings.HasPrefix(lines[i], "remark")
+		}
+		if !only {
+			sq = append(sq, q)
+		}
+	}
 	as := sq
 	if allowEmptyA {
 		as = append([][]int{{}}, sq...)
@@ -732,6 +746,8 @@ func c14Worker(ctx *core.Ctx) *core.Result {
 		// length 4 over five lines: two overlapping denies, three permits
 		aclPairSpace("ASA", "acl-asa4", c14Lines4, 5, 4, false),
 		aclPairSpace("IOS", "acl-ios4", c14Lines4, 5, 4, false),
+		aclPairSpace("IOS", "acl-ios-remark", c14LinesRemark, 5, 4, false),
+		aclPairSpace("ASA", "acl-asa-remark", c14LinesRemark, 5, 4, false),
 		aclGroupSpace(),
 		// merged target: two raw blocks of the ACL + the Netspoc lines
 		iosRawBlocksSpace("raw-blocks-ios", iosC14Lines(), 6, 3),
